@@ -225,10 +225,12 @@ FaultInExec(cls) ==
   /\ fs' = SetTop([Top EXCEPT !.st = "fault"])
   /\ UNCHANGED <<fork, res>>
 
-(* state gas borrowed from / repaid to execution gas (rule sets with two gas dimensions only) *)
+(* state gas borrowed from (spill: any time) / repaid to (only once the instruction's own    *)
+(* charging and its child frame are done) execution gas; rule sets with two gas dimensions   *)
 Adjust(g2) ==
   /\ Len(fs) > 0 /\ TwoD(fork) /\ Top.st = "run"
   /\ g2 >= 0 /\ g2 <= Top.given
+  /\ g2 <= Top.g \/ Top.pend = NoPend \/ Top.pend.kids = 1
   /\ fs' = SetTop([Top EXCEPT !.g = g2])
   /\ UNCHANGED <<fork, res>>
 
